@@ -9,7 +9,7 @@ PROP = "C15"
 MODULE = "PLS.Props.C15"
 THEOREMS = ["PLS.C15_ascii_prefix_cols", "PLS.C15_non_ascii_cols_differ", "PLS.C15_definition_target",
             "PLS.C15_implementation_target", "PLS.C15_symbol_selection", "PLS.C15_selection_outside_range_before",
-            "PLS.C15_param_range_wellformed", "PLS.C15_string_usage_span"]
+            "PLS.C15_param_range_wellformed", "PLS.C15_string_usage_span", "PLS.C15_oneline_literal_span"]
 RULE = ("generated programs (proggen: tabs, CRLF, non-ASCII identifiers and text before tokens, six string-literal "
         "forms, multi-line and annotated signatures, positional-only / keyword-only parameters): (A) every recorded "
         "definition / usage / undeclared span is compared token by token with CPython tokenize + ast positions, "
@@ -21,7 +21,7 @@ RULE = ("generated programs (proggen: tabs, CRLF, non-ASCII identifiers and text
 
 
 WITNESSES = [
-    "import pytest\n\n@pytest.mark.usefixtures(\"\"\"\nfoo\"\"\")\ndef test_a():\n    pass\n",                       # C15-multiline-string-span
+    "import pytest\n\n@pytest.mark.usefixtures(\"\"\"\nfoo\"\"\")\ndef test_a():\n    pass\n",                       # (fixed) a literal continued on the next line: the end column came from another line
     "import pytest\n\n@pytest.fixture\ndef \\\n    foo():\n    return 1\n\n@pytest.fixture\ndef\te():\n    return 2\n",     # C15-def-name-search
     # (fixed) outgoing-call fromRanges were found by text search on the def line: the function's own name or a
     # longer identifier containing the parameter's name
@@ -50,7 +50,10 @@ def check_positions(run, cname, text, impl_defs, impl_usages, impl_undecl, same_
     toks = pyspec.name_tokens(text)
     # usages
     want = {}
+    opaque = []
     for u in sp["usages"]:
+        if u["span"] is None and "lit" in u:
+            opaque.append(u)
         want.setdefault((u["name"], u["line"]), []).append(u)
     seen = Counter()
     for us in impl_usages:
@@ -63,8 +66,11 @@ def check_positions(run, cname, text, impl_defs, impl_usages, impl_undecl, same_
             report(f"usage {us} lies outside the document ({nlines} lines)", None); continue
         lt = lines[line - 1] if line - 1 < len(lines) else ""
         if s > e:
-            report(f"usage {us}: start column after end column", "C15-multiline-string-span"); continue
-        cands = want.get((name, line), [])
+            report(f"usage {us}: start column after end column", None); continue
+        # a literal whose source does not spell the name through a transparent token: the usage
+        # may be recorded on any line of the literal
+        cands = list(want.get((name, line), []))
+        cands += [x for x in opaque if x["name"] == name and x["lit"][0] <= line <= x["lit"][2] and x not in cands]
         if not cands:
             continue            # what is recorded is C03's business
         exact = [x for x in cands if x["span"] is not None and (x["span"][1], x["span"][2]) == (s, e)]
@@ -79,11 +85,14 @@ def check_positions(run, cname, text, impl_defs, impl_usages, impl_undecl, same_
             free.sort(key=lambda x: x["span"] is not None)
             c = (free or cands)[0]
         if c["span"] is None:
-            if c["kind"] == "indirect-all":
-                if "," in lt[lt.find("parametrize"):] and len([x for x in want if x[1] == line]) > 1:
-                    report(f"indirect parametrize usage {us} spans the whole argnames string, not the identifier", "C15-indirect-span")
-                continue
-            report(f"string usage {us}: the literal is prefixed / triple-quoted / concatenated, the span is not its content", "C15-E13b-string-form-span")
+            # escapes / implicit concatenation / a line break in the name: no token of the source
+            # is the name. Right is then either a place inside the literal whose text does spell
+            # the name, or the literal's content (between its first and last column)
+            l0, c0, l1, c1 = c["lit"]
+            spelled = (lt.encode("utf-8")[s:e] == name.encode("utf-8") and (l0, c0) <= (line, s) and (line, e) <= (l1, c1))
+            content = (line, s, e) == (l0, c0 + 1, max(c1 - 1, c0 + 1))
+            if not (spelled or content):
+                report(f"string usage {us}: neither a place in the literal {c['lit']} that spells the name nor the literal's content", None)
             continue
         exp_line, es, ee = c["span"]
         if (s, e) != (es, ee):
@@ -184,7 +193,7 @@ def stdio_part(run, progs, base):
                 for (jp, rg, cont) in ranges_in(resp, key):
                     nranges += 1
                     if not le(rg["start"], rg["end"]):
-                        report(f"{jp}: range start {rg['start']} after end {rg['end']}", "C15-multiline-string-span")
+                        report(f"{jp}: range start {rg['start']} after end {rg['end']}", None)
                     if rg["end"]["line"] >= len(lines) + 1:
                         report(f"{jp}: range {rg} lies outside the document ({len(lines)} lines)", None)
                     if jp.endswith(".selectionRange") and "range" in cont:
